@@ -24,11 +24,12 @@ OptLists == UNION {[1..n -> Option] : n \in 1..MaxItems} \cup UNION {[1..n -> Ha
 Own(o) == [i \in 1..Len(o) |-> IF IsStatic(o[i]) THEN o[i].a ELSE 0]
 Percent == {0, 25, 50, 75, 100}
 Aligns == Percent \cup {33}
-PadKinds == <<"given", "pack", "relative", "clip">>
+PadKinds == <<"given", "pack", "relative", "clip", "pack">>      \* 2: a packed child that shrinks (Padding around a text);
+                                                                  \* 5: a packed child with its own extent (Filler / Overlay around a flow widget)
 
 Init == \/ kind = "col0" /\ opts \in OptLists /\ p = <<>>
         \/ kind = "pile0" /\ opts \in {o \in OptLists : HasPositiveWeight(o)} /\ p = <<>>
-        \/ kind = "pad0" /\ opts = <<>> /\ p \in {<<ki, amt, mn>> : ki \in 1..4, amt \in 0..(MaxAmount + 3), mn \in {-1, 1, 2, 3}}
+        \/ kind = "pad0" /\ opts = <<>> /\ p \in {<<ki, amt, mn>> : ki \in 1..5, amt \in 0..(MaxAmount + 3), mn \in {-1, 1, 2, 3}}
         \/ kind = "grid0" /\ opts = <<>> /\ p \in {<<n, cw>> : n \in 1..5, cw \in 1..MaxAmount}
 
 Next ==
@@ -38,15 +39,15 @@ Next ==
   \/ /\ kind = "pad0" /\ kind' = "pad" /\ opts' = opts
      /\ p' \in {p \o <<L, R, al, av>> : L \in 0..MaxMargin, R \in 0..MaxMargin, al \in Aligns, av \in 0..MaxAvail}
   \/ /\ kind = "pad" /\ p[7] <= 4 /\ p[4] <= 1 /\ p[5] <= 1 /\ p[2] <= 4 /\ p[3] \in {-1, 2} /\ p[6] \in {0, 50, 100} /\ kind' = "ovl" /\ opts' = opts     \* Overlay: two axes, small product
-     /\ p' \in {p \o <<ki, amt, 1, 1, 0, al, av>> : ki \in 1..3, amt \in {2, 3}, al \in {0, 50}, av \in {0, 2, 4}}
+     /\ p' \in {p \o <<ki, amt, 1, 1, 0, al, av>> : ki \in {1, 3, 5}, amt \in {2, 3}, al \in {0, 50}, av \in {0, 2, 4}}
   \/ /\ kind = "grid0" /\ kind' = "grid" /\ opts' = opts
      /\ p' \in {p \o <<hs, vs, av>> : hs \in 0..2, vs \in 0..1, av \in 1..MaxAvail}
 Spec == Init /\ [][Next]_vars
 
 \* a Padding/Filler/Overlay-axis configuration from parameters <<kind index, amount, min, L, R, align, avail>>
 \* (relative amounts are percentages: amount a stands for 25 * a, up to 125)
-PadCfg(q) == [kind |-> PadKinds[q[1]], amt |-> IF q[1] = 3 THEN Min2(125, 25 * q[2]) ELSE q[2], own |-> q[2], min |-> q[3],
-              L |-> q[4], R |-> q[5], align |-> q[6], avail |-> q[7], clip |-> q[1] = 4]
+PadCfg(q) == [kind |-> PadKinds[q[1]], amt |-> IF q[1] = 3 THEN Min2(125, 25 * q[2]) ELSE q[2], own |-> q[2], nat |-> q[2], flex |-> q[1] = 2, min |-> q[3],
+              L |-> q[4], R |-> q[5], align |-> q[6], avail |-> q[7], clip |-> q[1] \in {4, 5}]
 
 ColOK == kind = "col" =>
   LET own == Own(opts)  w == RefColumns(opts, own, p[1], p[2], p[3], p[4])
@@ -75,12 +76,17 @@ ASSUME Refuted(LAMBDA o, d, mw, f, av : WrongColumnsFloor(o, SmallOwn(o), d, mw,
 ASSUME Refuted(LAMBDA o, d, mw, f, av : WrongColumnsFromLeft(o, SmallOwn(o), d, mw, av))
 ASSUME \E o \in {o \in SmallOpts : HasPositiveWeight(o)} : \E av \in 1..8 :
          ~PileRowsOK(o, SmallOwn(o), av, WrongPileEqual(o, SmallOwn(o), av))
-SmallPad == {PadCfg(<<ki, amt, mn, L, R, al, av>>) : ki \in 1..4, amt \in 1..3, mn \in {-1, 3}, L \in 0..1, R \in 0..1,
+SmallPad == {PadCfg(<<ki, amt, mn, L, R, al, av>>) : ki \in 1..5, amt \in 1..3, mn \in {-1, 3}, L \in 0..1, R \in 0..1,
                                                       al \in {0, 25, 100}, av \in 2..8}
 PadRefuted(Alloc(_)) == \E c \in SmallPad : LET x == Alloc(c) IN ~PadOK(c, x[1], x[2], x[3])
 ASSUME PadRefuted(WrongPadMirror)
 ASSUME PadRefuted(WrongPadNoMargins)
 ASSUME PadRefuted(WrongPadNoMin)
+ASSUME PadRefuted(WrongPadPackWhole)
+\* a shrinking packed child that does not fit beside the fixed margins gets exactly what they leave and the margins stay
+ASSUME \A c \in SmallPad : (c.flex /\ c.min = -1 /\ ~PadFits(c, c.nat) /\ PadBase(c) > 0) =>
+         \A l \in 0..c.avail : \A r \in 0..c.avail : \A ch \in 0..c.avail :
+           PadOK(c, l, r, ch) => (ch = c.avail - c.L - c.R /\ l = c.L /\ r = c.R)
 ASSUME ~GridOK(3, 2, 5, <<2, 2, 2>>, <<0, 3, 0>>, <<0, 0, 0>>)          \* third cell painted over the first
 ASSUME ~GridOK(2, 2, 5, <<2, 2>>, <<3, 0>>, <<0, 0>>)                   \* right to left
 ASSUME ~GridOK(2, 2, 5, <<2, 3>>, <<0, 2>>, <<0, 0>>)                   \* a cell wider than configured
